@@ -26,11 +26,15 @@ def tasks(tier):
                 ("t_step", {"n_grains": 2, "steps": 1}), ("t_step", {"n_grains": 2, "steps": 3}), ("t_step", {"n_grains": 3, "steps": 2}),
                 ("t_step", {"n_grains": 2, "steps": 2, "regime": "min_viscosity"}), ("t_step", {"n_grains": 2, "steps": 2, "regime": "max_viscosity"}),
                 ("t_step", {"n_grains": 2, "steps": 2, "regime": "matrix_diffusion"}), ("t_step", {"n_grains": 2, "steps": 2, "regime": "frictional_yielding"}),
-                ("t_rhs_pure", {"n_grains": 2}), ("t_initial_snapshot", {}), ("t_seed_plumbing", {})]
-    return [("t_extract_vars", {"n_grains": n}) for n in (1, 2, 3, 4)] + [
+                ("t_rhs_pure", {"n_grains": 2}), ("t_initial_snapshot", {}), ("t_seed_plumbing", {})] + [
+                    ("t_rate_tangent", {"n_grains": 2, "regime": rg}) for rg in REGIMES]
+    return [("t_rate_tangent", {"n_grains": n, "regime": rg}) for n in (2, 3) for rg in REGIMES] + [("t_extract_vars", {"n_grains": n}) for n in (1, 2, 3, 4)] + [
         ("t_step", {"n_grains": n, "steps": s, "regime": rg}) for n in (2, 3, 4) for s in (1, 2, 3)
         for rg in ("matrix_dislocation", "frictional_yielding", "matrix_diffusion", "min_viscosity", "max_viscosity")
     ] + [("t_rhs_pure", {"n_grains": 3}), ("t_initial_snapshot", {}), ("t_seed_plumbing", {})]
+
+
+REGIMES = ("matrix_dislocation", "frictional_yielding", "matrix_diffusion", "min_viscosity", "max_viscosity")
 
 
 def valid_claims(A, f, N):
@@ -205,6 +209,131 @@ def t_rhs_pure(sess, n_grains):
         sess.prove(f"{tag} path {k}: rhs does not modify any stored snapshot", p.pc, z3.And(*[all_eq(a, b) for a, b in zip(after, hist)]))
         sess.prove(f"{tag} path {k}: rhs is a function of (t, y): two evaluations agree", p.pc, all_eq(r1, r2))
     sess.satisfiable(f"{tag}: reach", paths[0].pc)
+
+
+def t_rate_tangent(sess, n_grains, regime):
+    """First-order mechanism behind "orientations remain orthonormal to within the ODE tolerance", for EVERY accepted
+    regime: at any state whose orientation block holds rotations, the orientation rates returned by the real
+    right-hand side (real eval_rhs, real core.derivatives) satisfy  dA_g A_g^T + A_g dA_g^T = 0, i.e. they are
+    tangent to SO(3).  In the dislocation-type regimes the grain kernel is replaced by its contract dA = A.S with S
+    skew (decided on the real kernel by C03 `t_spin_contract`), so this task decides what derivatives/eval_rhs do
+    with it (damping, re-dimensionalisation); in the other regimes nothing is stubbed but LSODA, eigvalsh and the
+    polar decomposition (an arbitrary deterministic function of its argument)."""
+    from .. import poly
+
+    mods = pydrex_modules()
+    minerals, core = mods["minerals"], mods["core"]
+    sess.encode(minerals.Mineral.update_orientations, core.derivatives, mods["utils"].extract_vars)
+    N = n_grains
+    sess.bounds["rate tangent"] = f"n_grains = {N}; all rotations A_g = R(q_g); arbitrary F, velocity gradient, volumes on the simplex, parameters in range"
+    sess.outside_claim("the size of the accumulated drift (5e-3 + 1e-3 (N + 2 strain)) is LSODA's error control; decided here: the exact flow stays on SO(3) (rates tangent)")
+    log, kcalls = [], []
+    plan = stubs.LsodaPlan(steps=1, n_grains=N)
+    Rg = core.DeformationRegime
+
+    def kstub(phase_, fabric_, orientation, *a):
+        g = len(kcalls) % N
+        kcalls.append(a)
+        s1, s2, s3 = real(f"sp{g}_1"), real(f"sp{g}_2"), real(f"sp{g}_3")
+        S = sarr(np.array([[R(0), s1, s2], [-s1, R(0), s3], [-s2, -s3, R(0)]], dtype=object))
+        return orientation @ S, real(f"kE{g}")
+
+    def fn():
+        log.clear()
+        kcalls.clear()
+        c = sym.ctx()
+        A, f = mh.sym_snapshot("s", N)
+        qs, rots = [], []
+        tot = R(0)
+        for x in f.flat:
+            c.assume((x >= 0).z3())
+            tot = tot + x
+        c.assume((tot == 1).z3())
+        for g in range(N):
+            q, unit = quat.quat(f"q{g}")
+            c.assume(unit)
+            Rm = quat.rotmat(q)
+            qs.append(q)
+            rots.append(Rm)
+            for i in range(3):
+                for j in range(3):
+                    c.assume((A[g, i, j] == Rm[i, j]).z3())
+                    c.assume(z3.And((A[g, i, j] >= -1).z3(), (A[g, i, j] <= 1).z3()))  # entries of a rotation matrix
+        params = mh.sym_params(N)
+        L = quat.symmat("L")
+        Fm = quat.symmat("F")
+        m = minerals.Mineral(regime=getattr(Rg, regime), n_grains=N, fractions_init=f.copy(), orientations_init=A.copy())
+        m.update_orientations(params, Fm, lambda t, x: L, (real("t0"), real("t1"), lambda t: sarr(np.zeros(3))))
+        solver = log[0]
+        y = np.asarray(solver.y0_arg, dtype=object)
+        r = solver.fun(real("t"), sarr(y.copy()))
+        return A, qs, rots, np.asarray(r, dtype=object)
+
+    with mh.env(plan, log, extra=[(core, "_get_rotation_and_strain", kstub)]):
+        paths, info = sym.explore(fn, max_paths=64)
+    tag = f"rate tangent[{regime}/N={N}]"
+    sess.paths[tag] = {"paths": len(paths)}
+    if info["truncated"]:
+        sess.truncated = True
+    bad = None
+    for pi, p in enumerate(paths[:8]):
+        pt = f"{tag} path {pi}"
+        if p.exc is not None:
+            sess.prove(f"{pt}: raises {type(p.exc).__name__}: {str(p.exc)[:60]}", p.pc, z3.BoolVal(False))
+            continue
+        A, qs, rots, r = p.value
+        rules = poly.Rules()
+        for g in range(N):
+            rules.unit_quat(qs[g])
+            for i in range(3):
+                for j in range(3):
+                    rules.alias(A[g, i, j], rots[g][i, j])
+        dA = r[9:9 + 9 * N].reshape(N, 3, 3)
+        for g in range(N):
+            Ag, dAg = sarr(np.asarray(rots[g], dtype=object)), sarr(dA[g])
+            lhs = dAg @ Ag.transpose() + Ag @ dAg.transpose()
+            name = f"{pt}: grain {g}: dA A^T + A dA^T = 0 (orientation rate tangent to SO(3))"
+            q = sess.prove_nf(name, p.pc, rules, lhs, sarr(np.full((3, 3), R(0), dtype=object)), resolve_ifs=True)
+            if not q.holds:
+                ce = {"name": name, "case": {"regime": regime}, "cls": {"kind": "orientation rate not tangent to SO(3): orthonormality is lost at first order", "regime": regime}}
+                if bad is None:
+                    bad = name
+                    ce["replay"] = "vf.props.C01:replay_drift"
+                else:
+                    ce["same_as"] = bad
+                sess.cex.append(ce)
+    if len(paths) > 8:
+        sess.truncated = True
+    sess.satisfiable(f"{tag}: reach", paths[0].pc if paths else [z3.BoolVal(False)])
+    sample(sess, obligation="rate tangent", regime=regime, paths=len(paths))
+
+
+def replay_drift(case):
+    """Real updates (JIT on, real LSODA) in the given regime: simple shear and a general 3-D flow, 5 updates each,
+    against the drift bound of the property statement, max|A A^T - I| <= 5e-3 + 1e-3 (N + 2 strain)."""
+    import numpy as np
+    import pydrex
+    from pydrex import core
+
+    regime = getattr(core.DeformationRegime, case["regime"])
+    problems = []
+    flows = {"simple shear": np.array([[0, 0, 2.0], [0, 0, 0], [0, 0, 0]]),
+             "general 3-D": np.array([[0.6, 1.1, -0.4], [-0.9, -0.2, 0.7], [0.3, -1.2, -0.4]])}
+    for label, L in flows.items():
+        m = pydrex.Mineral(regime=regime, n_grains=40, seed=3)
+        params = core.DefaultParams().as_dict()
+        params["number_of_grains"] = 40
+        rate = np.abs(np.linalg.eigvalsh((L + L.T) / 2)).max()
+        Fm = np.eye(3)
+        for k in range(5):
+            Fm = m.update_orientations(params, Fm, lambda t, x: L, (k * 0.1, (k + 1) * 0.1, lambda t: np.zeros(3)))
+            A = m.orientations[-1]
+            drift = float(np.abs(np.einsum("gij,gkj->gik", A, A) - np.eye(3)).max())
+            bound = 5e-3 + 1e-3 * ((k + 1) + 2 * rate * (k + 1) * 0.1)
+            if not drift <= bound or np.linalg.det(A).min() <= 0:
+                problems.append(f"{case['regime']}, {label}: after {k + 1} update(s) max|A A^T - I| = {drift:.3g} > {bound:.3g} (min det {np.linalg.det(A).min():.3f})")
+                break
+    return {"reproduced": bool(problems), "detail": problems or "orientations stay within the stated drift bound"}
 
 
 def default_cex(name):
